@@ -4,11 +4,11 @@ package main
 // schema facts.
 
 import (
-	"go/types"
-	"regexp"
 	_ "embed"
 	"fmt"
 	"go/token"
+	"go/types"
+	"regexp"
 	"sort"
 	"strings"
 )
@@ -491,6 +491,39 @@ func ruleSQLSpec(kinds func(m *sqlModel) []string) ruleFn {
 			for _, prob := range b.Problems {
 				c.und(b.Name+"/model", b.Perform.Pos(), prob)
 			}
+			// ids, keys and payloads are compared byte for byte: no column carries a collation
+			// that folds case or trims (it would apply to every `=`, UNIQUE and ON CONFLICT on it)
+			// every index names columns its table has (a misspelt column fails the schema script: the
+			// server does not start on that backend)
+			tableCols := map[string]map[string]bool{}
+			for _, d := range b.DDL {
+				if d.Kind == "create_table" {
+					tableCols[d.Table] = map[string]bool{}
+					for _, cd := range d.Cols {
+						tableCols[d.Table][cd.Name] = true
+					}
+				}
+			}
+			for _, d := range b.DDL {
+				if d.Kind != "create_index" {
+					continue
+				}
+				for _, col := range d.IndexCols {
+					if cols, ok := tableCols[d.Table]; ok && !cols[col] {
+						c.bad(b.Name+"/schema/"+d.IndexName+"/column", b.DDLPos, "index "+d.IndexName+" is declared on "+d.Table+"("+col+"), a column the table does not have: the schema script fails and the store does not start")
+					}
+				}
+			}
+			for _, d := range b.DDL {
+				if d.Kind != "create_table" {
+					continue
+				}
+				for _, cd := range d.Cols {
+					if cd.Collate != "" && cd.Collate != "binary" && cd.Collate != "c" {
+						c.bad(b.Name+"/schema/"+d.Table+"."+cd.Name+"/collation", b.DDLPos, "column "+d.Table+"."+cd.Name+" is declared COLLATE "+strings.ToUpper(cd.Collate)+": every comparison, uniqueness constraint and conflict target on it no longer distinguishes values that differ only in case / trailing blanks, so two different client ids denote one row")
+					}
+				}
+			}
 			for _, k := range ks {
 				a := b.Arms[k]
 				key := b.Name + "/" + k
@@ -767,6 +800,9 @@ func ddlFacts(b *backend) map[string]string {
 			}
 			if cd.AutoInc {
 				d += ":auto"
+			}
+			if cd.Collate != "" {
+				d += ":collate=" + cd.Collate
 			}
 			cols = append(cols, d)
 		}
